@@ -121,13 +121,14 @@ class Ctx:
         for k, v in self.known_hits.items():
             print(f"KNOWN-FINDING: property={self.prop} {k} {v['what']} (x{v['count']})")
         rdir = workdir("replay")
+        (rdir / f"{self.prop}-all.json").write_text(json.dumps(self.violations, default=str))
         for i, v in enumerate(self.violations):
             if i >= self.max_viol_lines:
                 break
             p = rdir / f"{self.prop}-{i}.json"
             p.write_text(json.dumps({"property": self.prop, **v}, indent=1, default=str))
             print(f"VIOLATION property={self.prop} replay={p}")
-            print("   ", json.dumps(v, default=str)[:600])
+            print("   ", json.dumps(v.get("detail", v), default=str)[:400])
             rc = 1
         if len(self.violations) > self.max_viol_lines:
             print(f"... {len(self.violations) - self.max_viol_lines} further violations not listed")
